@@ -1,4 +1,5 @@
 import NitroVerif.Lemmas.UsageWidth
+import NitroVerif.Lemmas.UsageForced
 import NitroVerif.Model.Usage
 import NitroVerif.Props.C17
 
@@ -218,5 +219,75 @@ theorem width_synopsis (d : UDecl) (t o m l : List Entry) (happ : '\n' ∉ d.app
       w.length + 1 + (8 + d.app.length) ≤ 80) :
     ∀ L ∈ lineLens 0 (synopsisPara d t o m l), L ≤ 80 :=
   synopsis_width d t o m l happ hlen hs hfit
+
+/-- **… unless a single unbreakable word forces it** — `format_padded` with *no* assumption on the
+words.  `formatPaddedLines` lists, for every line of the output (the continued one first), its length
+and whether a word that can never fit behind the padding (`|w| + 1 > maxW - leftPad`) was put on it;
+the first components are exactly the line lengths of the text, and every line without such a word
+keeps within the width. -/
+theorem width_unless_forced (col : Nat) (text : Str) (leftPad maxW : Int) (h0 : 0 ≤ leftPad) (h1 : leftPad < maxW)
+    (hnl : '\n' ∉ text) :
+    (formatPaddedLines col text leftPad maxW).map (·.1) = lineLens col (formatPadded col text leftPad maxW) ∧
+    ∀ p ∈ formatPaddedLines col text leftPad maxW, p.2 = false → (p.1 : Int) ≤ max (col : Int) maxW :=
+  ⟨formatPaddedLines_lens col text leftPad maxW hnl, formatPaddedLines_width col text leftPad maxW h0 h1⟩
+
+/-- a line is flagged only because of such a word: without one among the words nothing is flagged
+(so `width_unless_forced` contains `width_format_padded`) -/
+theorem no_forcing_word_no_flag (leftPad maxW : Int) (words : List Str)
+    (hw : ∀ w ∈ words, ((0 ≤ maxW - leftPad) && decide ((w.length : Int) + 1 > maxW - leftPad)) = false)
+    (space : Int) (pending : Option Int) (col : Nat) :
+    ∀ p ∈ fpLines leftPad maxW space pending words col false, p.2 = false := by
+  intro p hp
+  cases h : p.2 with
+  | false => rfl
+  | true => exact absurd (fpLines_flags leftPad maxW words hw space pending col false p hp h) (by simp)
+
+-- a 12-column text area behind a 4-column padding: the 14-character word can never fit; it is put on the
+-- line that is current, that line is flagged, and the lines before and after it keep within 12
+/-- one entry of the option section, no assumption on its words: its lines are those of the ghost
+(plus the empty rest behind the final line break), and every line without a never-fitting word is at
+most as long as the left column or 80 -/
+theorem width_entry_unless_forced (e : Entry) (hl : '\n' ∉ entryLeft e) (ht : '\n' ∉ entryText e)
+    (hne : entryText e ≠ []) :
+    lineLens 0 (formatEntry e) =
+      (formatPaddedLines (entryLeft e).length (entryText e) 40 80).map (·.1) ++ [0] ∧
+    ∀ p ∈ formatPaddedLines (entryLeft e).length (entryText e) 40 80, p.2 = false →
+      p.1 ≤ max (entryLeft e).length 80 := by
+  constructor
+  · rw [formatEntry_eq, if_pos hne, List.append_assoc, lineLens_append _ _ _ hl, lineLens_snoc_nl,
+      formatPaddedLines_lens _ _ _ _ ht]
+    simp
+  · intro p hp hf
+    have := formatPaddedLines_width (entryLeft e).length (entryText e) 40 80 (by omega) (by omega) p hp hf
+    omega
+
+/-- the synopsis, no assumption on its pieces (application names shorter than 72 characters) -/
+theorem width_synopsis_unless_forced (d : UDecl) (t o m l : List Entry) (happ : '\n' ∉ d.app)
+    (hlen : d.app.length < 72) (hs : '\n' ∉ (synopsisText d t o m l).drop 1)
+    (hne : synopsisText d t o m l ≠ []) :
+    lineLens 0 (synopsisPara d t o m l) =
+      (formatPaddedLines (7 + d.app.length) ((synopsisText d t o m l).drop 1) (8 + d.app.length) 80).map (·.1) ∧
+    ∀ p ∈ formatPaddedLines (7 + d.app.length) ((synopsisText d t o m l).drop 1) (8 + d.app.length) 80,
+      p.2 = false → p.1 ≤ 80 := by
+  have h7 : "usage: ".toList.length = 7 := by decide
+  have hhead : '\n' ∉ "usage: ".toList ++ d.app := by
+    intro h
+    rcases List.mem_append.mp h with h | h
+    · revert h; decide
+    · exact happ h
+  constructor
+  · unfold synopsisPara
+    have hl : ("usage: ".toList ++ d.app).length = 7 + d.app.length := by
+      rw [List.length_append, h7]
+    rw [lineLens_append _ _ _ hhead, if_pos hne, Nat.zero_add, hl, formatPaddedLines_lens _ _ _ _ hs]
+  · intro p hp hf
+    have := formatPaddedLines_width (7 + d.app.length) ((synopsisText d t o m l).drop 1) (8 + d.app.length) 80
+      (by omega) (by omega) p hp hf
+    omega
+
+example : fpLines 4 12 8 (some 4) ["aa".toList, "bb".toList, "cccccccccccccc".toList, "dd".toList] 0 false =
+    [(24, true), (6, false)] := by decide
+example : lineLens 0 (fpGo 4 12 8 (some 4) ["aa".toList, "bb".toList, "cccccccccccccc".toList, "dd".toList]) =
+    [24, 6] := by decide
 
 end NitroVerif.Props.C15
